@@ -10,31 +10,8 @@ TRUST = ("Trusted base: the VC generator in /verif/engine (unverified; defended 
          "/verif/selftest), the SMT solvers, the assumed contracts and library abstractions listed in the evidence file "
          "(trusted_base / assumptions), machine integers modelled exactly as bit-vectors. ")
 
-# id -> (claimed?, level text, note, technique)
-CHECKS = {
- "C07": ("Unbounded deductive proof, for every reader content, of the decode path of pkg/trie/node: no panic (index, slice, nil, "
-         "explicit panic) in Decode/decodeBranch/decodeLeaf/decodeKey/decodeHashedValue/decodeHeader/decodeHeaderByte, termination "
-         "measure of the header length loop, the header-byte table of the Polkadot spec as postconditions of decodeHeaderByte "
-         "(all 256 bytes), nibble expansion KeyLEToNibbles against its digit specification, reader representation invariant framed "
-         "through every callee. Encode/decode round trip of whole nodes is not yet under contract (see evidence residual).",
-         TRUST + "scale.Decoder.Decode is an assumed contract (havocs its destination, any error); bytes.Reader methods are executed from their real bodies.",
-         "contract-based deductive verification: WP/symbolic execution over go/ssa of the real functions + SMT (z3/cvc5)"),
- "C37": ("Unbounded deductive proof over the real lib/keystore functions: Decrypt/DecryptPrivateKey/Encrypt/gcmFromPassphrase never panic for any data and "
-         "password, never write to their inputs (frame), ciphertexts shorter than nonce+tag are errors, an Open error is returned as an error and never a key, "
-         "the AES key is derived from the whole unmodified password (ghost call log of blake2b.Sum256), the nonce/ciphertext handed to Open are exactly data[:12] / data[12:].",
-         TRUST + "cipher.AEAD is an assumed library contract (12-byte nonce, 16-byte tag, Seal/Open append to dst and only read their other arguments); the cryptographic "
-         "round-trip and tamper-evidence of AES-GCM itself are assumed, not proved; DecodePrivateKey (elliptic-curve libraries) is an assumed contract.",
-         "contract-based deductive verification: WP/symbolic execution over go/ssa of the real functions + SMT (z3/cvc5)"),
- "C30": ("Unbounded deductive proof over dot/peerset: saturating reputation arithmetic (add/sub/tick) against the 64-bit clamp specification; every slot operation "
-         "(tryAcceptIncoming, tryOutgoing, disconnect, addNoSlotNode, removeNoSlotNode) changes numIn/numOut by exactly the change of the peer's slot-occupancy indicator, "
-         "respects maxIn/maxOut, leaves everything unchanged on error (delta contracts, whole-record frame); insertPeer/newNode/peerStatus contracts; addReputation applies the "
-         "saturating change and never re-acquires its lock (ghost lock state); reportPeer reaches every reported peer (ghost call counter + loop invariant); incoming never emits "
-         "Accept for a peer below the ban threshold (assertion at every channel send).",
-         TRUST + "The finite-cardinality step (numIn equals the number of peers whose indicator is set, given every operation preserves the delta) is a stated mathematical lemma. "
-         "In reportPeer/incoming the structural preconditions of PeersState operations are assumed (listed in evidence); updateTime and allocSlots are assumed contracts (modifies *); "
-         "the goroutine dispatcher is not modelled.",
-         "contract-based deductive verification: WP/symbolic execution over go/ssa of the real functions + SMT (z3/cvc5)"),
-}
+TECH = "contract-based deductive verification: WP/symbolic execution over go/ssa of the real functions + SMT (z3/cvc5)"
+CHECKS = {k: (v["text"], v["note"].replace("{TRUST}", TRUST), TECH) for k, v in json.load(open('/verif/tools/checks.json')).items()}
 
 NA = {
  "C22": "protocol-level safety over all executions of a distributed protocol (message delay, loss, Byzantine voters): not expressible as per-function contracts; the per-call threshold/quorum facts are covered under C18/C19/C21 where claimed",
